@@ -182,9 +182,22 @@ def run(ctx):
     o2 = list(range(n))
     rng.shuffle(o2)
     o3 = list(reversed(o1))
-    # the empty history is the reference where affordable (a fork per specification): all of them in the thorough tier, in the quick tier the
-    # accelerators, the families and the cascades; elsewhere the first order is the reference
-    fresh = [i for i, it in enumerate(items) if not q or it.get("kind", "").startswith(("family", "mixed", "accelerator", "cascade"))]
+    # the empty history is the reference where affordable (a fork per specification costs 0.2-2 s): every specification in the thorough tier; in
+    # the quick tier the accelerators, three members of every family and six mixed cascades; elsewhere the first order is the reference
+    if q:
+        fresh, per_family = [], {}
+        for i, it in enumerate(items):
+            kd = it.get("kind", "")
+            if kd.startswith("accelerator"):
+                fresh.append(i)
+            elif kd == "family":
+                per_family.setdefault(it["family"], []).append(i)
+        for fam, idxs in per_family.items():
+            fresh += rng.sample(idxs, min(3, len(idxs)))
+        fresh += [i for i, it in enumerate(items) if it.get("kind") == "mixed-cascade"][:6]
+        fresh.sort()
+    else:
+        fresh = list(range(len(items)))
     res, alone = order_workers(items, [o1, o2, o3], fresh=fresh)
     stats["compiled_alone"] = len(alone)
     for i in range(n):
@@ -199,7 +212,7 @@ def run(ctx):
             la, lb = (ref or "").split("\n"), (t or "").split("\n")
             fd = next(((x.strip(), y.strip()) for x, y in zip(la, lb) if x != y), (str(len(la)) + " lines", str(len(lb)) + " lines"))
             ctx.violation({"kind": "order-dependent-text"}, "the text emitted for a specification depends on which specifications were compiled before it in the same process: "
-                          "alone `%s` but in %s `%s`" % (fd[0][:160], w, fd[1][:160]),
+                          "%s `%s` but in %s `%s`" % ("alone" if i in alone else "in order 1", fd[0][:160], w, fd[1][:160]),
                           {"yaml": items[i]["yaml"], "differs_in": [w for w, _ in diff], "alone": ref, "in_sequence": t})
     nb, bbad, bsamples = buffet_teq(ctx, 300 if q else 3000)
     for e, g, r in bbad[:5]:
